@@ -360,18 +360,17 @@ class MemNet(object):
         return 0
 
 
+_SOCKET_NAMES = dict((k, getattr(_socket, k)) for k in dir(_socket) if k.isupper())
+_SOCKET_NAMES.update(error=_socket.error, gaierror=_socket.gaierror, timeout=_socket.timeout,
+                     getaddrinfo=_socket.getaddrinfo, herror=_socket.herror)
+
+
 class FakeSocketModule(object):
     """stands in for the `socket` module inside one ioflo module (e.g. clienting.socket)"""
     def __init__(self, factory):
+        self.__dict__.update(_SOCKET_NAMES)     # constants and exception classes of the real module
         self._factory = factory
         self.created = 0
-        for k in dir(_socket):
-            if k.isupper():
-                setattr(self, k, getattr(_socket, k))
-        self.error = _socket.error
-        self.gaierror = _socket.gaierror
-        self.timeout = _socket.timeout
-        self.getaddrinfo = _socket.getaddrinfo
 
     def socket(self, *pa, **kwa):
         self.created += 1
